@@ -39,8 +39,26 @@ WORKERS = int(os.environ.get('VERIF_WORKERS', '14'))
 REGRESS = os.path.join(VERIF, 'regress', PROP)
 PROPOSED = os.path.join(REGRESS, 'PROPOSED_FINDINGS.jsonl')
 
+
+def open_finding_ids():
+    """ids of the OPEN findings (known_findings.jsonl + PROPOSED_FINDINGS.jsonl, the former wins): only their pre-filters are active"""
+    ids = {}
+    for path in (PROPOSED, os.path.join(VERIF, 'known_findings.jsonl')):
+        if os.path.exists(path):
+            with open(path) as fh:
+                for line in fh:
+                    line = line.strip()
+                    if line:
+                        e = json.loads(line)
+                        ids[e['id']] = e.get('status', 'open')
+    return [i for i, st in ids.items() if st == 'open']
+
+
 _children = set()
 _children_lock = threading.Lock()
+# fuzz_capi works on files in a per-process directory; a process that traps or is killed cannot remove it, so every
+# process started by this runner gets its directory below one root that the runner removes when it ends
+SHM_ROOT = '/dev/shm/c03fz.%d' % os.getpid()
 
 
 def log(*a):
@@ -61,6 +79,9 @@ def target_env(extra=None, leak_stacks=False):
     if os.path.exists(os.path.join(BIN, 'libxalan-c.so.112')):
         env['LD_LIBRARY_PATH'] = BIN + (':' + env['LD_LIBRARY_PATH'] if env.get('LD_LIBRARY_PATH') else '')
     env.pop('C03_STATS_DIR', None)
+    os.makedirs(SHM_ROOT, exist_ok=True)
+    env['C03_TMPDIR'] = SHM_ROOT
+    env.setdefault('C03_OPEN_FINDINGS', ','.join(sorted(open_finding_ids())))
     if extra:
         env.update(extra)
     return env
@@ -290,8 +311,8 @@ class Group(object):
         quick_deaths = 0
         while True:
             remaining = int(deadline - time.time())
-            if remaining < 4:
-                return
+            if remaining < (4 if n == 0 else 12):
+                return  # a restarted process first re-runs the whole corpus, which libFuzzer does not interrupt
             seed = SEED * 1000 + self.index0 + w + 100 * n  # never 0: libFuzzer treats -seed=0 as "random"
             logp = os.path.join(self.logs, 'w%d.%d.log' % (w, n))
             cmd = [os.path.join(BIN, self.target), '-max_total_time=%d' % remaining, '-timeout=25', '-rss_limit_mb=2048',
@@ -508,7 +529,7 @@ def cmd_campaign(tier):
     run_dir = os.path.join(VERIF, '.scratch', 'c03', str(os.getpid()))
     shutil.rmtree(run_dir, ignore_errors=True)
     os.makedirs(run_dir)
-    tmp = '/dev/shm/c03fz.%d' % os.getpid()
+    tmp = SHM_ROOT
     shutil.rmtree(tmp, ignore_errors=True)
     os.makedirs(tmp)
     known = load_findings()
@@ -736,8 +757,9 @@ def campaign(tier, budget, run_dir, tmp, known, pool, tri, t_start):
         'reproducibility': 'libFuzzer is only approximately reproducible for a given VERIF_SEED (timing decides how far each process gets and '
                            'what it reloads from the shared corpus); the saved artifact is the reproducible unit',
     }
-    os.makedirs(os.path.join(VERIF, 'evidence'), exist_ok=True)
-    with open(os.path.join(VERIF, 'evidence', 'C03.fuzz.json'), 'w') as f:
+    edir = os.environ.get('VERIF_EVIDENCE_DIR', os.path.join(VERIF, 'evidence'))
+    os.makedirs(edir, exist_ok=True)
+    with open(os.path.join(edir, 'C03.fuzz.json'), 'w') as f:
         json.dump(ev, f, indent=1, sort_keys=False, default=str)
         f.write('\n')
     for t in TARGETS:
@@ -758,7 +780,7 @@ def campaign(tier, budget, run_dir, tmp, known, pool, tri, t_start):
 
 
 def main():
-    signal.signal(signal.SIGTERM, lambda *a: (kill_all(), os._exit(2)))
+    signal.signal(signal.SIGTERM, lambda *a: (kill_all(), shutil.rmtree(SHM_ROOT, ignore_errors=True), os._exit(2)))
     if len(sys.argv) >= 3 and sys.argv[1] == '--replay':
         return cmd_replay(sys.argv[2])
     if len(sys.argv) >= 2 and sys.argv[1] in ('quick', 'thorough'):
@@ -768,8 +790,11 @@ def main():
 
 
 if __name__ == '__main__':
+    rc = 2
     try:
-        sys.exit(main())
+        rc = main()
     except KeyboardInterrupt:
         kill_all()
-        sys.exit(2)
+    finally:
+        shutil.rmtree(SHM_ROOT, ignore_errors=True)
+    sys.exit(rc)
